@@ -92,6 +92,17 @@ fn db_exec(i: u64, prev: Option<u64>, heavy: bool) -> ClusterAction {
     })
 }
 
+/// a batch that fails when it is executed at its place in the log (the alias it links is inserted by a *later* entry) but
+/// would succeed if it were executed again after that entry: its effect must never appear
+fn forward_link(later: u64) -> ClusterAction {
+    ClusterAction::DbExec(DbExec {
+        user: "owner".into(),
+        owner: "owner".into(),
+        db: "db1".into(),
+        queries: Queries(vec![QueryBuilder::insert().edges().from(format!("n{later}")).to(format!("n{later}")).query().into()]),
+    })
+}
+
 fn preamble() -> Vec<ClusterAction> {
     vec![
         ClusterAction::UserAdd(UserAdd {
@@ -150,6 +161,8 @@ enum Mode {
     /// appends and commits interleaved (several client requests in flight at a leader, or a follower whose
     /// heartbeat commit index jumps): commit(j) for some j <= last appended, then more appends, ...
     Interleaved,
+    /// everything is committed and executed one entry at a time, then the node restarts: nothing may be executed again
+    ExecutedThenRestart,
 }
 
 struct Outcome {
@@ -233,12 +246,26 @@ async fn run_actions(dir: &str, actions: &[ClusterAction], mode: Mode, sequentia
                     return Err("timeout waiting for executions".into());
                 }
             }
-            Mode::CommitEach => {
+            Mode::CommitEach | Mode::ExecutedThenRestart => {
                 for i in first..=index {
                     inst.cluster.raft.write().await.storage.commit(i).await.map_err(|e| e.description)?;
                 }
                 if !wait_executed(&mut rx, actions.len(), &mut seen).await {
                     return Err("timeout waiting for executions".into());
+                }
+                if let Mode::ExecutedThenRestart = mode {
+                    // the executor marks an entry executed after the notification: wait for the bookkeeping to settle
+                    for _ in 0..100 {
+                        if inst.cluster_log.logs_unexecuted(index).await.map_err(|e| e.description)?.is_empty() {
+                            break;
+                        }
+                        tokio::time::sleep(Duration::from_millis(20)).await;
+                    }
+                    // a graceful restart: a new ClusterStorage over the same log and databases
+                    let cluster2 = crate::cluster::new(&inst.config, &inst.server_db, &inst.cluster_log, &inst.db_pool).await.map_err(|e| e.description)?;
+                    // give a (wrong) replay the time to run
+                    tokio::time::sleep(Duration::from_millis(700)).await;
+                    drop(cluster2);
                 }
             }
             Mode::Restart => {
@@ -281,7 +308,9 @@ impl CaseEngine for C31 {
     }
     fn rule(&self) -> String {
         "the real ServerDb, ClusterLog, DbPool and ClusterStorage (server sources compiled into the harness unmodified) on a multi-thread \
-         tokio runtime with 2-16 workers: k uniquely tagged, order-sensitive actions (UserAdd of distinct users; DbExec batches inserting a \
+         tokio runtime with 2-16 workers: k uniquely tagged, order-sensitive actions (UserAdd of distinct users; DbExec batches that fail at \
+         their place in the log because they link a node only a later entry creates - their effect must never appear, in particular not \
+         after a restart that follows the complete execution of the log; DbExec batches inserting a \
          tagged node linked from its predecessor, some made slow) are appended through ClusterStorage::append and committed (a) with one \
          commit(k), (b) with k successive commit(i), (c) by marking them committed and constructing a new ClusterStorage (restart replay). \
          Verdict from state: user nodes and tagged nodes appear in log order (ids assigned by the databases record the execution order), \
@@ -304,12 +333,17 @@ impl CaseEngine for C31 {
         let scratch = args.str("scratch", "/verif/scratch/c31");
         let dir = vcore::scratch_dir(&scratch, &format!("c{case}"));
         let k = args.u64("logs", if args.thorough() { 100 } else { 40 });
-        let mode = [Mode::CommitAll, Mode::CommitEach, Mode::Restart, Mode::Interleaved][case % 4];
-        let chained = case % 2 == 0;
+        let mode = [Mode::CommitAll, Mode::CommitEach, Mode::Restart, Mode::Interleaved, Mode::ExecutedThenRestart][case % 5];
+        let chained = (case / 5) % 2 == 0;
         let mut prev_tag: Option<u64> = None;
-        let actions: Vec<ClusterAction> = (1..=k)
+        let mut forward: Vec<usize> = vec![];
+        let mut actions: Vec<ClusterAction> = (1..=k)
             .map(|i| {
                 if rng.chance(1, 3) {
+                    user_add(i)
+                } else if rng.chance(1, 6) && i + 2 < k {
+                    // placeholder, resolved below once the later tags are known
+                    forward.push(i as usize - 1);
                     user_add(i)
                 } else {
                     // chained: the batch links its node from the node of the previous batch, so it fails when executed early
@@ -319,12 +353,24 @@ impl CaseEngine for C31 {
                 }
             })
             .collect();
+        // failing actions: link a node that only a later entry creates
+        let mut failing = 0;
+        for pos in forward {
+            let later = (pos + 1..actions.len()).find(|j| matches!(&actions[*j], ClusterAction::DbExec(d) if d.queries.0.len() > 0 && format!("{:?}", d.queries.0[0]).contains("tag")));
+            if let Some(j) = later {
+                actions[pos] = forward_link(j as u64 + 1);
+                failing += 1;
+            }
+        }
+        rep.add("actions_that_fail_at_their_place_in_the_log", failing);
         // the server creates the built-in admin before anything else
         let expect_users: Vec<String> = ["admin".to_string(), "owner".to_string()]
             .into_iter()
             .chain(actions.iter().filter_map(|a| if let ClusterAction::UserAdd(u) = a { Some(u.user.clone()) } else { None }))
             .collect();
-        let expect_tags: Vec<u64> = (1..=k).filter(|i| matches!(actions[(*i - 1) as usize], ClusterAction::DbExec(_))).collect();
+        let expect_tags: Vec<u64> = (1..=k)
+            .filter(|i| matches!(&actions[(*i - 1) as usize], ClusterAction::DbExec(d) if format!("{:?}", d.queries.0[0]).contains("tag")))
+            .collect();
         let workers = 2 + rng.usize(15);
         let rt = tokio::runtime::Builder::new_multi_thread().worker_threads(workers).enable_all().build().expect("runtime");
         let tested = rt.block_on(run_actions(&format!("{dir}/tested"), &actions, mode, false));
@@ -383,7 +429,8 @@ impl CaseEngine for C31 {
         let _ = std::fs::remove_dir_all(&dir);
     }
     fn finish(&self, args: &Args, rep: &mut Report) {
-        for m in ["runs_commitall", "runs_commiteach", "runs_restart", "runs_interleaved"] {
+        rep.require("actions_that_fail_at_their_place_in_the_log", 10);
+        for m in ["runs_commitall", "runs_commiteach", "runs_restart", "runs_interleaved", "runs_executedthenrestart"] {
             rep.require(m, 3);
         }
         let _ = std::fs::remove_dir_all(args.str("scratch", "/verif/scratch/c31"));
